@@ -257,6 +257,14 @@ func monitorRecycling(c *Ctx) {
 		c.Violate(Violation{Key: "handler-count-over-many-events", Monitor: "handler-once", Desc: fmt.Sprintf("500 failing events: ErrorHandler ran %d times, the destination after the failing one was called %d times", h, last),
 			Case: map[string]interface{}{"destinations": 3, "failing": 1, "events": 500}, Observed: []int{h, last}, Expected: []int{500, 500}})
 	}
+	// the same count for every kind of error value (errvalues.go), sentinel and wrapped form
+	for id := 0; id < 2*len(errKinds); id++ {
+		_, h, last := measure(errTab[id])
+		if h != 500 || last != 500 {
+			c.Violate(Violation{Key: "handler-count-over-many-events", Monitor: "handler-once", Desc: fmt.Sprintf("500 events, the middle destination of three fails every Write with %s (%T, text %q): ErrorHandler ran %d times, the destination after the failing one was called %d times", errKindName[id], errTab[id], errTab[id].Error(), h, last),
+				Case: map[string]interface{}{"destinations": 3, "failing": 1, "events": 500, "error_value": errKindName[id], "error_text": errTab[id].Error()}, Observed: []int{h, last}, Expected: []int{500, 500}})
+		}
+	}
 }
 
 // ---------------------------------------------------------------- handler histories
